@@ -2,7 +2,7 @@
    Only statements; every proof is one lemma of the Proofs* files. *)
 From Coq Require Import List Bool Arith ZArith QArith Qcanon.
 From AL Require Import Base.CaseLib C04.Model C06.Model C06.Spec.
-From AL Require Import C04.Spec C06.ProofsAlg C06.ProofsPull C06.ProofsLoop C06.ProofsWf C06.ProofsEq C06.ProofsGain C06.ProofsKeys C06.ProofsUniq C06.Check.
+From AL Require Import C04.Spec C06.ProofsAlg C06.ProofsPull C06.ProofsLoop C06.ProofsWf C06.ProofsEq C06.ProofsGain C06.ProofsKeys C06.ProofsUniq C06.ProofsLin C06.ProofsLin2 C06.ProofsLin3 C06.ProofsLin4 C06.Check.
 Import ListNotations.
 Open Scope Qc_scope.
 
@@ -74,8 +74,11 @@ Print Assumptions C06_pull_value.
    round); Check.corr_tv evaluates it on the model's program of every sampled case.
    The sequence form (registers = past samples, sum of terms = sum over the tables,
    the gain branch) is C06_tv_diffeq below.
-   PARTIAL: wf_prog is checked per sampled filter instead of being proved for every
-   filter the arithmetic can build. *)
+   PARTIAL: wf_prog is checked per sampled filter.  The unconditional form is
+   C06_lin_round_spec (hypothesis linf, syntactic); linf is proved for filters made of
+   distinct sources and constants (C06_simple_linf); what is left is the preservation of
+   linf by pmul / padd / pcopy / mk_tfilt / divide_through, i.e. linf for the results
+   of the arithmetic and for the variable-gain branch. *)
 Theorem C06_tv_round_spec_partial : forall S (f : tfilt) (p : tprog) memory zero fuel,
   wf_prog f p = true ->
   round_spec S (stream_iters (t_num f)) (stream_iters (t_den f)) p fuel 0
@@ -84,6 +87,85 @@ Theorem C06_tv_round_spec_partial : forall S (f : tfilt) (p : tprog) memory zero
              (run_tv S (TGen p) f memory zero fuel).
 Proof. exact run_tv_wf. Qed.
 Print Assumptions C06_tv_round_spec_partial.
+
+(* ---- tee accounting WITHOUT the per-sample test.  linf HT f (C06.ProofsLin3) is a
+   syntactic condition on the Stream coefficients of f and a hub table HT: every tee
+   node is a copy c < n of a hub of the table, hub numbers distinct, iterators of lower
+   rank, and every leaf (source or tee copy) occurs at most once across the coefficient
+   expressions and the iterators of the hubs; the input (source 0) is not among them.
+   Under linf the round spec, read-once, the end of the output and the difference
+   equation hold for all inputs with no hypothesis evaluated on samples (proof: the
+   abstract tee discipline apull from empty buffers fires every reachable hub exactly
+   once, whatever the order in which the copies are pulled). *)
+Theorem C06_lin_round_spec : forall S (f : tfilt) zero p memory fuel HT,
+  keys_ok (t_num f) -> keys_ok (t_den f) -> linf HT f -> tcodegen f zero = Ok (TGen p) ->
+  round_spec S (stream_iters (t_num f)) (stream_iters (t_den f)) p fuel 0
+             (unpack (p_mvars (tp_prog p)) memory empty_env)
+             (assign_all (p_dvars (tp_prog p)) zero empty_env)
+             (run_tv S (TGen p) f memory zero fuel).
+Proof. exact lin_round_spec. Qed.
+Print Assumptions C06_lin_round_spec.
+
+Theorem C06_lin_coef_read_once : forall S (f : tfilt) zero p memory fuel HT,
+  keys_ok (t_num f) -> keys_ok (t_den f) -> linf HT f -> tcodegen f zero = Ok (TGen p) ->
+  Forall (fun seg => seg = 0%nat :: snd (aterms (stream_iters (t_num f)) (stream_iters (t_den f))
+                                               (p_terms (tp_prog p)) p_zero))
+         (segs (run_tv S (TGen p) f memory zero fuel) []).
+Proof. exact lin_read_once. Qed.
+Print Assumptions C06_lin_coef_read_once.
+
+Theorem C06_lin_ends_at_shortest : forall S (f : tfilt) zero p memory fuel HT,
+  let bs := stream_iters (t_num f) in
+  let az := stream_iters (t_den f) in
+  let ts := p_terms (tp_prog p) in
+  let rd := snd (aterms bs az ts p_zero) in
+  keys_ok (t_num f) -> keys_ok (t_den f) -> linf HT f -> tcodegen f zero = Ok (TGen p) ->
+  (forall n m d, forallb (alive S n) rd = true -> tsum (snapshot S n) bs az ts m d 0 <> None) ->
+  (forall n m d, exists V, compat S n V /\ tsum V bs az ts m d 0 <> None) ->
+  let tr := run_tv S (TGen p) f memory zero fuel in
+  count_yields tr = live_len S (0%nat :: rd) fuel 0 /\
+  ((live_len S (0%nat :: rd) fuel 0 < fuel)%nat -> exists pre, tr = pre ++ [EvStop]).
+Proof. exact lin_ends. Qed.
+Print Assumptions C06_lin_ends_at_shortest.
+
+(* the difference equation for a linear filter with a number as gain *)
+Theorem C06_lin_diffeq : forall S (f : tfilt) g zero p mem fuel HT,
+  keys_ok (t_num f) -> keys_ok (t_den f) -> linf HT f ->
+  In (0%Z, CNum g) (t_den f) -> g <> 0 -> tcodegen f zero = Ok (TGen p) ->
+  let lm := t_mem_size f in
+  let ys := yields (run_tv S (TGen p) f (normalise_memory lm zero mem) zero fuel) in
+  forall j, (j < length ys)%nat ->
+    g * ysig (past lm zero mem) ys (Z.of_nat j)
+    = psum (vtab (snapshot S j) (t_num f)) (fun k => xrel S 0 (fun _ => zero) (Z.of_nat j - k)%Z)
+      - psum (feedback (vtab (snapshot S j) (t_den f))) (fun k => ysig (past lm zero mem) ys (Z.of_nat j - k)%Z).
+Proof. exact lin_diffeq. Qed.
+Print Assumptions C06_lin_diffeq.
+
+(* linf holds for every filter whose coefficients are constants or pairwise distinct
+   sources (ZFilter(dict, dict) with any subset of coefficients replaced by streams) *)
+Theorem C06_simple_linf : forall f : tfilt, simple_filter f -> linf [] f.
+Proof. exact simple_linf. Qed.
+Print Assumptions C06_simple_linf.
+
+(* end to end with nothing evaluated on samples: ZFilter(num, den) from dicts of constants
+   and pairwise distinct sources (any subset of b_k, a_k for k >= 1 replaced by streams),
+   lowest denominator power 0, a number as gain: round spec and read-once *)
+Theorem C06_base_round_spec : forall S (n d : tdata) h f h1 h2 zero p memory fuel,
+  (forall kv, In kv (n ++ d) -> simple_coef (snd kv)) ->
+  NoDup (0%nat :: src_ids n ++ src_ids d) ->
+  NoDup (map fst n) -> NoDup (map fst d) ->
+  tmin_power (tcompact coef_alg d) = Some 0%Z ->
+  build coef_alg (FBase n d) h = BOk f h1 ->
+  prepare h1 f = Ok (BOk f h2) -> tcodegen f zero = Ok (TGen p) ->
+  round_spec S (stream_iters (t_num f)) (stream_iters (t_den f)) p fuel 0
+             (unpack (p_mvars (tp_prog p)) memory empty_env)
+             (assign_all (p_dvars (tp_prog p)) zero empty_env)
+             (run_tv S (TGen p) f memory zero fuel) /\
+  Forall (fun seg => seg = 0%nat :: snd (aterms (stream_iters (t_num f)) (stream_iters (t_den f))
+                                               (p_terms (tp_prog p)) p_zero))
+         (segs (run_tv S (TGen p) f memory zero fuel) []).
+Proof. exact base_round_spec. Qed.
+Print Assumptions C06_base_round_spec.
 
 (* tv_diffeq, in full.  For a filter with keys in order (distinct non-negative powers),
    whatever subset of its coefficients are Stream objects (built by any arithmetic),
@@ -326,3 +408,12 @@ Print Assumptions C06_nonvacuous_const_stream.
 Example C06_nonvacuous_built : bases_ok ex_expr.
 Proof. simpl. repeat split; repeat constructor; simpl; intuition discriminate. Qed.
 Print Assumptions C06_nonvacuous_built.
+
+(* the unconditional theorems are not vacuous: ex2_f is simple, its keys are in order *)
+Example C06_nonvacuous_lin : simple_filter ex2_f /\ keys_ok_b (t_num ex2_f) = true /\ keys_ok_b (t_den ex2_f) = true.
+Proof.
+  split; [|split; reflexivity]. split.
+  - intros kv Hin. simpl in Hin. repeat (destruct Hin as [<-|Hin]; [exact I|]). destruct Hin.
+  - simpl. repeat constructor; simpl; intuition discriminate.
+Qed.
+Print Assumptions C06_nonvacuous_lin.
